@@ -113,11 +113,22 @@ IDestroy(o) == /\ Destroy(o)
                /\ pos' = [pos EXCEPT ![o] = 0] /\ size' = [size EXCEPT ![o] = 0] /\ slots' = [slots EXCEPT ![o] = <<>>]
                /\ icap' = [icap EXCEPT ![o] = 0]
 
-Next == \E o \in Objs : \/ /\ o \in MutObjs /\ UNCHANGED bops
-                           /\ \/ IPushBack(o) \/ IPushFront(o) \/ IPopBack(o) \/ IPopFront(o)
-                              \/ \E n \in 1..MaxCap : IResize(o, n)
-                        \/ /\ bops < MaxBOps /\ bops' = bops + 1
-                           /\ ICopyConstruct(o) \/ ICopyAssign(o) \/ IMoveConstruct(o) \/ IMoveAssign(o) \/ IDestroy(o)
+Mut(o) == o \in MutObjs /\ UNCHANGED bops
+Two == bops < MaxBOps /\ bops' = bops + 1
+\* flat disjunction of named actions, so that TLC's state-graph dump labels every edge
+PushBackA(o) == Mut(o) /\ IPushBack(o)
+PushFrontA(o) == Mut(o) /\ IPushFront(o)
+PopBackA(o) == Mut(o) /\ IPopBack(o)
+PopFrontA(o) == Mut(o) /\ IPopFront(o)
+ResizeA(o, n) == Mut(o) /\ IResize(o, n)
+CopyConstructA(o) == Two /\ ICopyConstruct(o)
+CopyAssignA(o) == Two /\ ICopyAssign(o)
+MoveConstructA(o) == Two /\ IMoveConstruct(o)
+MoveAssignA(o) == Two /\ IMoveAssign(o)
+DestroyA(o) == Two /\ IDestroy(o)
+Next == \E o \in Objs : \/ PushBackA(o) \/ PushFrontA(o) \/ PopBackA(o) \/ PopFrontA(o)
+                        \/ \E n \in 1..MaxCap : ResizeA(o, n)
+                        \/ CopyConstructA(o) \/ CopyAssignA(o) \/ MoveConstructA(o) \/ MoveAssignA(o) \/ DestroyA(o)
 Spec == Init /\ [][Next]_vars
 
 (* ---- what TLC checks ---- *)
